@@ -146,7 +146,8 @@ class ModbusTransactionManager(object):
                     else:
                         full = False
                     c_str = str(self.client)
-                    if "modbusudpclient" in c_str.lower().strip():
+                    datagram = "modbusudpclient" in c_str.lower().strip()
+                    if datagram:
                         full = True
                         if not expected_response_length:
                             expected_response_length = Defaults.ReadSize
@@ -184,7 +185,8 @@ class ModbusTransactionManager(object):
                             delay = 2 ** (self.retries - retries) * self.backoff
                             time.sleep(delay)
                             _logger.debug("Sleeping {}".format(delay))
-                        full = False
+                        # a datagram has to be read whole on every attempt
+                        full = datagram
                         broadcast = False
                         retries -= 1
                     addTransaction = partial(self.addTransaction,
